@@ -145,3 +145,23 @@ pub trait Cupv2Handler {
     fn verify_response(&self, request_metadata: &RequestMetadata, resp: &HttpResponse<Vec<u8>>, public_key_id: PublicKeyId) -> (r: Result<DerSignature, CupVerificationError>)
         ensures r is Ok <==> self.accepts(request_metadata, resp, public_key_id);
 }
+
+// ---------------- app set ----------------
+pub trait AppSet {
+    spec fn apps(&self) -> Seq<App>;
+    spec fn system_app_id(&self) -> Seq<char>;
+    fn get_apps(&self) -> (r: Vec<App>)
+        ensures r@ == self.apps();
+    fn get_system_app_id(&self) -> (r: &str)
+        ensures r@ == self.system_app_id();
+    // ---- AppSetExt (provided methods; contracts proved of the real bodies in the app_set group)
+    fn all_valid(&self) -> (r: bool)
+        ensures r == (forall|i: int| 0 <= i < self.apps().len() ==> app_valid(#[trigger] self.apps()[i]));
+    fn update_from_omaha(&mut self, app_responses: &[update_check::AppResponse])
+        ensures final(self).apps() == apps_updated(old(self).apps(), app_responses@),
+            final(self).system_app_id() == old(self).system_app_id();
+    fn persist<'a, VxI0: Storage>(&'a self, storage: &'a mut VxI0) -> (f: LocalBoxFuture<'a, ()>)
+        ensures f.awaited() ==> final(storage).log().len() >= old(storage).log().len()
+            && final(storage).log().subrange(0, old(storage).log().len() as int) == old(storage).log()
+            && app_persist_ops(self.apps(), final(storage).log().subrange(old(storage).log().len() as int, final(storage).log().len() as int));
+}
